@@ -18,6 +18,9 @@
 #include <boost/gil/extension/dynamic_image/dynamic_image_all.hpp>
 #include <boost/variant2/variant.hpp>
 #include <typeinfo>
+#include <unistd.h>
+#include <fcntl.h>
+#include <sys/wait.h>
 #include <utility>
 #include <type_traits>
 #include "harness.hpp"
@@ -127,16 +130,22 @@ template <typename... Imgs> int depth_of(gil::any_image<Imgs...> const& a) {
     return v2::visit([](auto const& img) { return info<typename std::decay<decltype(img)>::type>::depth; }, a);
 }
 
-// a user-defined colour converter (exact integer semantics, defined for every pixel pair):
-//   every destination channel j (physical) := (sum of the source's physical channels + 7*j + 3) mod 2^dstdepth
+// a user-defined, STATEFUL colour converter (exact integer semantics, defined for every pixel pair):
+//   every destination channel j (physical) := (sum of the source's physical channels + 7*j + 3 + off) mod 2^dstdepth
+//   `off` is run-time state of the converter object (default-constructed: 0); the harness always passes
+//   off = cc_offset(seed) >= 1, so an overload that drops the caller's converter object and uses CC() is observable
+inline uint64_t cc_offset(uint64_t seed) { return seed % 251ull + 1ull; }
 struct sum_cc {
+    uint64_t off = 0;
+    sum_cc() {}
+    explicit sum_cc(uint64_t o) : off(o) {}
     template <typename S, typename D> void operator()(S const& s, D& d) const {
         uint64_t sum = 0;
         for_chan<gil::num_channels<S>::value>([&](auto k) { sum += static_cast<uint64_t>(gil::at_c<decltype(k)::value>(s)); });
         for_chan<gil::num_channels<D>::value>([&](auto k) {
             using ch_t = typename gil::channel_type<D>::type;
             uint64_t m = static_cast<uint64_t>(gil::channel_traits<ch_t>::max_value());
-            gil::at_c<decltype(k)::value>(d) = static_cast<ch_t>((sum + 7 * decltype(k)::value + 3) & m);
+            gil::at_c<decltype(k)::value>(d) = static_cast<ch_t>((sum + 7 * decltype(k)::value + 3 + off) & m);
         });
     }
 };
@@ -148,6 +157,19 @@ template <typename View> void toggle_at(View const& v, std::ptrdiff_t x, std::pt
     auto c = gil::at_c<0>(r);                 // channel value (proxy reference for bit-aligned)
     uint64_t cur = static_cast<uint64_t>(gil::at_c<0>(r));
     gil::at_c<0>(r) = static_cast<typename gil::channel_traits<typename std::decay<decltype(c)>::type>::value_type>(cur ^ 1ull);
+}
+
+// does f() terminate the process abnormally (BOOST_ASSERT / sanitizer)? Runs f in a forked child, stderr silenced.
+template <typename F> bool dies(F&& f) {
+    std::fflush(stdout);
+    pid_t pid = fork();
+    if (pid == 0) {
+        int fd = open("/dev/null", O_WRONLY); if (fd >= 0) { dup2(fd, 2); dup2(fd, 1); }
+        try { f(); } catch (...) { _exit(3); }
+        _exit(0);
+    }
+    int st = 0; waitpid(pid, &st, 0);
+    return !(WIFEXITED(st) && (WEXITSTATUS(st) == 0 || WEXITSTATUS(st) == 3));
 }
 
 // op words without the list selector `B`
